@@ -349,13 +349,15 @@ def run_case(flavor, bindir, casedir, sc, tag, tables, wall=40):
 
 def san_signature(report):
     """Seed-independent signature of a sanitizer report: error class + innermost frame inside the repository."""
-    m = re.search(r"ERROR: (?:AddressSanitizer|LeakSanitizer|UndefinedBehaviorSanitizer): ([A-Za-z-]+(?: is out of memory| on unknown address)?)", report)
+    m = re.search(r"ERROR: (?:AddressSanitizer|LeakSanitizer|UndefinedBehaviorSanitizer): ([^\n]*)", report)
     if m:
-        kind = m.group(1)
+        kind = "-".join(re.sub(r"0x[0-9a-f]+|\d+|[():]", " ", m.group(1).split(" on ")[0]).split()[:5])
     else:
         m = re.search(r"runtime error: ([^\n]*)", report)
         kind = re.sub(r"0x[0-9a-f]+|\d+", "N", m.group(1))[:50] if m else "report"
-    fn = re.search(r"#\d+ 0x[0-9a-f]+ in (\w+) (?:\S*/)?src/", report)
+    if kind == "stack-overflow":
+        return kind        # the frame in which the stack happens to run out is arbitrary
+    fn = re.search(r"#\d+ 0x[0-9a-f]+ in (\w+) (?!\S*libsanitizer)(?:\S*/)?src/", report)
     return "%s@%s" % (kind, fn.group(1) if fn else "?")
 
 
